@@ -531,6 +531,16 @@ def _range_factory(prog, rep, fac, kind="range"):
     COND = ("sub", ("attr", SELF, "conditional_on"), IDX)
     from vstat.terms import top_alts as _ta
     from vstat.terms import degrade as _dg
+    # (order + [dim])[position] is order[position] and (order + [dim])[position + 1:] is order[position + 1:] + [dim] for the positions 0 .. len(order) - 1 in use
+    _tail = ("slice", ("bin", "+", POS, ("const", 1)), NONE, NONE)
+    _same = {}
+    for L_ in (ORD, ("call", G("list"), (ORD,), ())):
+        F_ = ("bin", "+", L_, ("list", (DIMP,)))
+        _same[("sub", F_, POS)] = IDX
+        _same[("sub", F_, _tail)] = ("bin", "+", ("sub", ORD, _tail), ("list", (DIMP,)))
+
+    def _norm(x):
+        return subst(x, _same)
     # one closure, or one per case (`if cond_idx is None: return unconditional_range`): every returned closure with the literals it is returned under
     pairs = []          # [(literals, lo term, hi term)]
     ARGS = None
@@ -552,6 +562,7 @@ def _range_factory(prog, rep, fac, kind="range"):
             t = bi.term(irets[-1].value, irets[-1]) if len(irets) == 1 else NONE
             if a_ != ARGS:
                 t = subst(t, {a_: ARGS})
+            t = _norm(t)
             if kind == "points":
                 # the options of one variable: a dict whose 'points' are break points for quad
                 ent = dict(t[1]) if t[0] == "dict" else {}
